@@ -631,3 +631,9 @@ def r16(ctx, R):
             R.check(ok, f'{ci.name}.{fn.name} :: {name} = get_Qdelta_{kind}(self.params.{name})', w, f'{name} from self.params.{name} through the {"explicit" if name == "QE" else "implicit"} builder', ast.unparse(s)[:100])
     if n < 12:
         raise AnalysisError(f'C02.R16: only {n} preconditioner constructions found')
+
+
+@rule('C02', 'C02.R17', 'the k-dependent preconditioner coefficients are refreshed on the level that is swept: one level per sweep loop in the controllers (shared with C03.R14)', floor=6)
+def r17(ctx, R):
+    from . import c03
+    c03.r14(ctx, R)
